@@ -339,6 +339,9 @@ func genForeign(r *rng) *foreignPkg {
 		ext := strings.TrimPrefix(filepath.Ext(n), ".")
 		if _, ok := f.Defaults[ext]; !ok {
 			f.Defaults[ext] = map[string]string{"png": "image/png", "jpeg": "image/jpeg", "jpg": "image/jpeg", "gif": "image/gif", "gz": "application/gzip"}[ext]
+			if alt, ok := map[string]string{"png": "image/x-png", "jpeg": "image/pjpeg", "jpg": "image/jpg", "gif": "image/x-gif"}[ext]; ok && r.chance(25) {
+				f.Defaults[ext] = alt // a content type another producer uses for the extension: the package's, to be kept
+			}
 		}
 		if r.chance(80) {
 			id := newID()
